@@ -169,6 +169,10 @@ func (s *SkipList[K, V]) Remove(key K) (V, bool) {
 
 // Clear removes all nodes from the skip list.
 func (s *SkipList[K, V]) Clear() {
+	if s.head.next == nil {
+		return
+	}
+
 	s.head.next = make([]*SkipNode[K, V], maxLevel)
 	s.len = 0
 	s.level = 1
